@@ -11,8 +11,8 @@ CONSTANTS
   MaxOps = 2
   Kinds = {"lock","try2","try1"}
   MaxIntr = 0
-  FixEmpty = FALSE
-  FixAdjust = FALSE
+  FixEmpty = TRUE
+  FixAdjust = TRUE
   Broken = "none"
   OnlyNonEmpty = FALSE
 CHECK_DEADLOCK FALSE
